@@ -169,3 +169,102 @@ Proof.
   - rewrite E. f_equal. now apply Hl.
   - unfold centry_of at 1. rewrite clookup_cstore_same. reflexivity.
 Qed.
+
+(* ====================================================================== *)
+(* Round 6: the cache carried between documents (slots): documents produced by
+   paste_clipboard_data / insert_after / insert_before / copies, queries that
+   pre-seed the cache, drops.  Every value returned is the cache-free one, the
+   live documents are the same, and the invariant is preserved. *)
+
+Lemma cache_ok_release s c t : cache_ok c -> cache_ok (release s c t).
+Proof. intros Hc. unfold release. destruct (text_live s t); [exact Hc|now apply cache_ok_drop]. Qed.
+
+Lemma cache_ok_touch c t fp : cache_ok c -> cache_ok (touch c t fp).
+Proof.
+  intros Hc. unfold touch. destruct (fp =? 2); [apply (cached_indexes_correct c t Hc)|].
+  destruct (fp =? 1); [apply (cached_lines_correct c t Hc)|exact Hc].
+Qed.
+
+Lemma cache_ok_place s c dst d : cache_ok c -> cache_ok (snd (place s c dst d)) /\ fst (place s c dst d) = sput s dst d.
+Proof.
+  intros Hc. unfold place. cbv zeta. destruct (sget s dst); cbn [fst snd]; (split; [|reflexivity]).
+  - apply cache_ok_release. now apply cache_ok_new.
+  - now apply cache_ok_new.
+Qed.
+
+Lemma produce_correct s c dst d :
+  cache_ok c ->
+  fst (produce s c dst d) = (if ctor_ok d then SVDoc d else SVErr) /\
+  fst (snd (produce s c dst d)) = (if ctor_ok d then sput s dst d else s) /\
+  cache_ok (snd (snd (produce s c dst d))).
+Proof.
+  intros Hc. unfold produce. destruct (ctor_ok d); cbn [fst snd].
+  - destruct (cache_ok_place s c dst d Hc) as [H1 H2]. split; [reflexivity|]. split; [exact H2|exact H1].
+  - split; [reflexivity|]. split; [reflexivity|exact Hc].
+Qed.
+
+Ltac tri H := split; [reflexivity|split; [reflexivity|exact H]].
+
+Theorem sstep_correct s c o :
+  cache_ok c ->
+  fst (sstep (s, c) o) = fst (sfree s o) /\
+  fst (snd (sstep (s, c) o)) = snd (sfree s o) /\
+  cache_ok (snd (snd (sstep (s, c) o))).
+Proof.
+  intros Hc.
+  assert (P : forall c' dst d, cache_ok c' ->
+            fst (produce s c' dst d) = fst (if ctor_ok d then (SVDoc d, sput s dst d) else (SVErr, s)) /\
+            fst (snd (produce s c' dst d)) = snd (if ctor_ok d then (SVDoc d, sput s dst d) else (SVErr, s)) /\
+            cache_ok (snd (snd (produce s c' dst d)))).
+  { intros c' dst d Hc'. destruct (produce_correct s c' dst d Hc') as (H1 & H2 & H3).
+    rewrite H1, H2. destruct (ctor_ok d); cbn [fst snd]; tri H3. }
+  destruct o as [i t cur|i|i|i|i fp|src dst data ty mode count|src dst t|src dst t|src dst];
+    cbn [sstep sfree].
+  - apply P, Hc.
+  - destruct (sget s i) as [d|]; [|tri Hc].
+    destruct (cached_lines_correct c (dtext d) Hc) as [Hv Hc1].
+    destruct (cached_lines c (dtext d)) as [l c']. cbn [fst snd] in *. subst l. tri Hc1.
+  - destruct (sget s i) as [d|]; [|tri Hc].
+    destruct (cached_indexes_correct c (dtext d) Hc) as [Hv Hc1].
+    destruct (cached_indexes c (dtext d)) as [l c']. cbn [fst snd] in *. subst l. tri Hc1.
+  - destruct (sget s i) as [d|]; cbn [fst snd]; [|tri Hc].
+    split; [reflexivity|split; [reflexivity|now apply cache_ok_release]].
+  - destruct (sget s i) as [d|]; cbn [fst snd]; [|tri Hc].
+    split; [reflexivity|split; [reflexivity|now apply cache_ok_touch]].
+  - destruct (sget s src) as [d|]; [|tri Hc]. apply P. now apply cache_ok_touch.
+  - destruct (sget s src) as [d|]; [|tri Hc]. apply P, Hc.
+  - destruct (sget s src) as [d|]; [|tri Hc]. apply P, Hc.
+  - destruct (sget s src) as [d|]; [|tri Hc]. apply P, Hc.
+Qed.
+
+Theorem srun_correct ops : forall s c,
+  cache_ok c ->
+  fst (srun (s, c) ops) = fst (sfree_run s ops) /\
+  fst (snd (srun (s, c) ops)) = snd (sfree_run s ops) /\
+  cache_ok (snd (snd (srun (s, c) ops))).
+Proof.
+  induction ops as [|o r IH]; intros s c Hc; cbn [srun sfree_run].
+  - tri Hc.
+  - destruct (sstep_correct s c o Hc) as (Hv & Hs & Hc1).
+    destruct (sstep (s, c) o) as [v [s1 c1]]. destruct (sfree s o) as [v' s1']. cbn [fst snd] in *. subst v' s1'.
+    destruct (IH s1 c1 Hc1) as (Hvs & Hss & Hc2).
+    destruct (srun (s1, c1) r) as [vs [s2 c2]]. destruct (sfree_run s1 r) as [vs' s2']. cbn [fst snd] in *.
+    subst. tri Hc2.
+Qed.
+
+(* from no documents and an empty table *)
+Corollary slots_cache_transparent ops :
+  fst (srun ([], []) ops) = fst (sfree_run [] ops) /\
+  fst (snd (srun ([], []) ops)) = snd (sfree_run [] ops).
+Proof. destruct (srun_correct ops [] [] cache_ok_nil) as (H1 & H2 & _). split; assumption. Qed.
+
+(* whatever the table holds for a text after any such history is what the text
+   determines (in particular for a document produced by a paste and for every
+   equal-text document created while it is alive) *)
+Corollary slots_cache_entries ops t e :
+  clookup (snd (snd (srun ([], []) ops))) t = Some e ->
+  (forall l, ce_lines e = Some l -> l = lines (mkdoc t 0)) /\
+  (forall ix, ce_indexes e = Some ix -> ix = line_start_indexes (mkdoc t 0)).
+Proof.
+  intros H. destruct (srun_correct ops [] [] cache_ok_nil) as (_ & _ & Hc). exact (Hc t e H).
+Qed.
